@@ -195,7 +195,9 @@ def run_schedule(rp, choices, drain=True):
             p._check_running(to_watch)
 
     def cancel_req():
-        p._control_cb('control_pubsub', {'cmd': 'cancel_tasks', 'arg': {'uids': ['task.000000']}})
+        # the request names other tasks too (some waiting elsewhere in the agent, some long gone), before and
+        # after the one this executor holds
+        p._control_cb('control_pubsub', {'cmd': 'cancel_tasks', 'arg': {'uids': ['task.000077', 'task.000000', 'task.000078']}})
 
     def timeout_fire():
         p.cancel_task(task=task)
